@@ -22,10 +22,143 @@ MI = "miasm/ir/translators/miasm_ir.py"
 LEVEL_TEXT = ("Token-level semantics of the Python operators emitted by TranslatorPython compared with the reference operator "
               "table; skeletons of parity/rotation/equality; shape rules for slice/compose/cond; field completeness and order "
               "of the construction-source templates against the Expr classes' fields. Evaluates no emitted source.")
+TABLES = {}
 ASSUMPTIONS = ["CPython ast; Python 3 integer operator semantics (sa/optable.PY3)", "identifier values are non-negative integers below 2^size"]
 # after `& mask` an unbounded Python shift / arithmetic on non-negative ints is the modular operation
 MASKED = {"ADD": "ADD", "SUB": "SUB", "MUL": "MUL", "XOR": "XOR", "AND": "AND", "OR": "OR", "UDIV": "UDIV", "UREM": "UREM",
           "LSHR": "LSHR_SAT", "SHL": "SHL_SAT", "POW": "POW"}
+
+
+def _emitted(fn, op=None, tables=None):
+    """[(conds, skeleton text, holes, parts)] of the strings a translator method returns (specialised for operator `op`)."""
+    from sa.symval import paths, op_decider
+    from sa.templ import flatten, skeleton
+    dec = op_decider(("expr.op",), op) if op is not None else None
+    if dec is not None and tables:
+        base = dec
+
+        def dec(t, base=base):
+            if isinstance(t, ast.Compare) and len(t.ops) == 1 and isinstance(t.ops[0], (ast.In, ast.NotIn)) and norm(t.left) == "expr.op" \
+                    and norm(t.comparators[0]) in tables:
+                return (op in tables[norm(t.comparators[0])]) == isinstance(t.ops[0], ast.In)
+            return base(t)
+    out = []
+
+    class Spec(ast.NodeTransformer):
+        def visit_IfExp(self, n):
+            d = dec(n.test) if dec is not None else None
+            self.generic_visit(n)
+            return n.body if d is True else n.orelse if d is False else n
+
+        def visit_Attribute(self, n):
+            if op is not None and norm(n) == "expr.op":
+                return ast.Constant(value=op)
+            self.generic_visit(n)
+            return n
+    for p in paths(fn.body, decide=dec):
+        if p.kind != "return":
+            continue
+        parts = flatten(Spec().visit(p.value))
+        sk, holes = skeleton(parts)
+        out.append((p.conds, sk, holes, parts))
+    return out
+
+
+def _ir(text):
+    """Canonical text of an IR-expression-building Python expression (spaces removed, operand widths unified)."""
+    t = text.replace(" ", "")
+    for a in ("expr.args[1].size", "expr.args[0].size"):
+        t = t.replace(a, "expr.size")
+    return t
+
+
+def _composite(ck, m, fn, b, op):
+    from sa.templ import unify
+    em = [e for e in _emitted(fn, op, getattr(_composite, "tables", None)) if not any("op_no_translate" in norm(c) and v for c, v in e[0])]
+    where = m.where(b["node"])
+    if not em:
+        ck.ob("R1", "python:%s" % op, False, where, "no returned source found for operator %r" % op)
+        return
+    ok_all = True
+    detail = ""
+    for conds, sk, holes, parts in em:
+        if op == "parity":
+            u = unify(sk, "((bin(X & 255).count('1') + 1) & 1)", "X")
+            ok = u is not None and _ir(holes.get(u["X"], "")) == "self.from_expr(expr.args[0])"
+            detail = "parity is emitted as `%s`: it must be 1 for an even number of set bits in the low byte of the operand" % sk
+        elif op == "==":
+            ok = sk.strip() in holes and _ir(holes[sk.strip()]) == "self.from_expr(ExprCond(expr.args[0]-expr.args[1],ExprInt(0,1),ExprInt(1,1)))"
+            detail = "equality is emitted as `%s` %s: it must be ((a - b) ? 0 : 1)" % (sk, holes)
+        elif op in ("<<<", ">>>"):
+            u = unify(sk, "((X >> A) | (X << B)) & M", "XABM")
+            ok = u is not None
+            if ok:
+                hx, ha, hb, hm = (_ir(holes.get(u[k], u[k])) for k in "XABM")
+                cnt = "self.from_expr(expr.args[1]%ExprInt(expr.size,expr.size))"
+                inv = "self.from_expr(ExprInt(expr.size,expr.size)-expr.args[1]%ExprInt(expr.size,expr.size))"
+                want = (cnt, inv) if op == ">>>" else (inv, cnt)
+                ok = hx == "self.from_expr(expr.args[0])" and (ha, hb) == want and hm in ("int(expr.mask)", "(1<<expr.size)-1", "expr.mask")
+            detail = "rotation %r is emitted as `%s` with %s: it must be ((x >> s) | (x << (size - s))) & mask with s = count mod size (amounts exchanged for <<<)" % (op, sk, holes)
+        else:
+            ok = False
+            detail = "operator %r is translated but has no reference skeleton" % op
+        ok_all = ok_all and ok
+        if not ok:
+            break
+    ck.ob("R1", "python:%s" % op, ok_all, where, detail)
+
+
+def _shapes(ck, m, meths):
+    from sa.templ import unify
+    # slice
+    f = meths["from_ExprSlice"]
+    ok = True
+    seen = 0
+    for conds, sk, holes, parts in _emitted(f):
+        seen += 1
+        u = unify(sk, "(X >> S) & M", "XSM")
+        if u is not None:
+            ok = ok and _ir(holes[u["X"]]) == "self.from_expr(expr.arg)" and _ir(holes[u["S"]]) == "expr.start" and \
+                _ir(holes[u["M"]]) in ("(1<<expr.stop-expr.start)-1", "(1<<(expr.stop-expr.start))-1")
+            continue
+        u = unify(sk, "X & M", "XM")
+        # the unshifted form is only right when start is known to be 0 on that path
+        zero = any(norm(c).replace(" ", "") in ("expr.start!=0", "expr.start") and v is False or norm(c).replace(" ", "") in ("expr.start==0", "notexpr.start") and v is True
+                   for c, v in conds)
+        ok = ok and u is not None and zero and _ir(holes[u["X"]]) == "self.from_expr(expr.arg)" and \
+            _ir(holes[u["M"]]) in ("(1<<expr.stop-expr.start)-1", "(1<<(expr.stop-expr.start))-1")
+    ck.ob("R1b", "slice", ok and seen > 0, m.where(f), "a slice must be emitted as ((x >> start) & (2^(stop-start) - 1))")
+    # compose
+    f = meths["from_ExprCompose"]
+    ok = False
+    for conds, sk, holes, parts in _emitted(f):
+        js = [p for p in parts if p[0] == "join"]
+        if len(js) != 1:
+            continue
+        j = js[0]
+        from sa.templ import skeleton
+        sep, _h = skeleton(list(j[1]))
+        el, eh = skeleton(list(j[2]))
+        tg = [x.strip() for x in j[3].strip("()").split(",")]
+        u = unify(el, "(X & M) << P", "XMP")
+        if u is None or len(tg) != 2 or sep.strip() != "|" or "iter_args()" not in j[4]:
+            continue
+        pos, arg = tg
+        ok = _ir(eh[u["X"]]) == "self.from_expr(%s)" % arg and _ir(eh[u["M"]]) == "(1<<%s.size)-1" % arg and _ir(eh[u["P"]]) == pos and not j[5]
+    ck.ob("R1b", "compose", ok, m.where(f), "a compose must be emitted as the OR of ((part & mask(part size)) << position) over iter_args()")
+    # cond
+    f = meths["from_ExprCond"]
+    ok = False
+    for conds, sk, holes, parts in _emitted(f):
+        u = unify(sk, "(A if C else B)", "ACB")
+        ok = u is not None and [_ir(holes[u[k]]) for k in "ACB"] == ["self.from_expr(expr.src1)", "self.from_expr(expr.cond)", "self.from_expr(expr.src2)"]
+    ck.ob("R1b", "cond", ok, m.where(f), "a conditional must be emitted as (src1 if (cond) else src2)")
+    f = meths["from_ExprMem"]
+    ok = False
+    for conds, sk, holes, parts in _emitted(f):
+        u = unify(sk, "memory(P, N)", "PN")
+        ok = u is not None and _ir(holes[u["P"]]) == "self.from_expr(expr.ptr)" and _ir(holes[u["N"]]) in ("expr.size//8", "expr.size>>3")
+    ck.ob("R1b", "mem", ok, m.where(f), "a memory read must be emitted as memory(ptr, size in bytes)")
 
 
 def run(ck):
@@ -37,63 +170,47 @@ def run(ck):
     ck.rule("R1b", "slice/compose/cond/memory shapes of the emitted Python source", floor=4)
     ck.rule("R2", "the construction translator emits the same class with every identity field in constructor order", floor=8)
 
+    global TABLES
+    tb = m.cls("TranslatorPython")
+    TABLES = {}
+    for st in tb.body:
+        if isinstance(st, ast.Assign) and str_elts(st.value) is not None:
+            TABLES["self." + norm(st.targets[0])] = str_elts(st.value)
+    _composite.tables = TABLES
     consts = tok_consts(ck.repo)
     brs = op_branches(fn, m, cls, consts=consts)
     ck.need(brs, "TranslatorPython.from_ExprOp: no operator branch extracted")
     for b in brs:
         body = norm(ast.Module(body=list(b["body"]), type_ignores=[]))
         if b["kind"] == "in" and len(b["ops"]) > 2:
-            # the generic branch: token (possibly remapped) joined between arguments, then masked
-            remap = {}
-            for n in walk_local(ast.Module(body=list(b["body"]), type_ignores=[])):
-                if isinstance(n, ast.Assign) and isinstance(n.value, ast.IfExp) and isinstance(n.value.test, ast.Compare) and \
-                        norm(n.value.test.left) == "expr.op" and isinstance(n.value.body, ast.Constant) and norm(n.value.orelse) == "expr.op":
-                    remap[n.value.test.comparators[0].value] = n.value.body.value
-                if isinstance(n, ast.Assign) and isinstance(n.value, ast.Call) and isinstance(n.value.func, ast.Attribute) and n.value.func.attr == "get" \
-                        and isinstance(n.value.func.value, ast.Dict) and norm(n.value.args[0]) == "expr.op":
-                    for k, v in zip(n.value.func.value.keys, n.value.func.value.values):
-                        remap[k.value] = v.value
-            masked = body.count("(1 << expr.size) - 1") >= 2 and "& 0x%x" in body
+            # the generic branch: token (possibly remapped) joined between the translated arguments, then masked
+            from sa.templ import skeleton
             for op in b["ops"]:
-                tok = remap.get(op, op)
+                got, masked, tok = "?", False, "?"
+                for conds, sk, holes, parts in _emitted(fn, op, TABLES):
+                    js = [p_ for p_ in parts if p_[0] == "join"]
+                    if len(js) != 1:
+                        continue      # the unary form of the branch
+                    sep, _h = skeleton(list(js[0][1]))
+                    tok = sep.strip()
+                    rest, rh = skeleton([p_ if p_[0] != "join" else ("hole", "JOINED", "s") for p_ in parts])
+                    from sa.templ import unify
+                    u = unify(rest, "X & M", "XM")
+                    masked = u is not None and rh.get(u["X"]) == "JOINED" and _ir(rh.get(u["M"], "")) in ("(1<<expr.size)-1", "int(expr.mask)", "expr.mask")
+                    elem = js[0][2]
+                    args_ok = "self.from_expr" in js[0][4] and "expr.args" in js[0][4] or (len(elem) == 1 and "self.from_expr" in elem[0][1])
+                    masked = masked and args_ok
                 got = MASKED.get(PY3.get(tok, "?"), PY3.get(tok, "?" + tok))
                 ref = "SUB" if op == "-" else OT0.get(op)
                 ck.ob("R1", "python:%s" % op, got == ref and masked, m.where(b["node"]),
                       "operator %r is emitted as the Python token %r = %s%s; miasm's meaning is %s"
-                      % (op, tok, got, "" if masked else " without the final mask", ref))
+                      % (op, tok, got, "" if masked else " without the final mask over the translated arguments", ref))
             continue
         for op in b["ops"]:
-            t = body.replace(" ", "")
-            if op == "parity":
-                ok = "&255" in t.replace("0xff", "255") and ("count('1')" in t) and ("+1)&1" in t.replace("0x1", "1"))
-                ck.ob("R1", "python:parity", ok, m.where(b["node"]),
-                      "parity is emitted as `%s`: it must be 1 for an even number of set bits in the low byte" % body.strip()[:80])
-            elif op == "==":
-                ok = "ExprCond(expr.args[0]-expr.args[1],ExprInt(0,1),ExprInt(1,1))" in t
-                ck.ob("R1", "python:==", ok, m.where(b["node"]), "equality must be emitted as ((a - b) ? 0 : 1)")
-            elif op in ("<<<", ">>>"):
-                ok = "amount=expr.args[1]%ExprInt(amount_raw.size,expr.size)" in t and "amount_inv=ExprInt(expr.size,expr.size)-amount" in t and \
-                    "ifexpr.op=='<<<':\namount,amount_inv=(amount_inv,amount)" in t and \
-                    "part1='(%s>>%s)'%(self.from_expr(expr.args[0]),self.from_expr(amount))" in t and \
-                    "part2='(%s<<%s)'%(self.from_expr(expr.args[0]),self.from_expr(amount_inv))" in t and "int(expr.mask)" in t
-                ck.ob("R1", "python:%s" % op, ok, m.where(b["node"]),
-                      "rotation must be ((x >> s) | (x << (size - s))) & mask with s = count mod size (amounts exchanged for <<<)")
-            else:
-                ck.ob("R1", "python:%s" % op, False, m.where(b["node"]), "operator %r is translated but has no reference skeleton" % op)
+            _composite(ck, m, fn, b, op)
 
     meths = m.methods("TranslatorPython")
-    t = norm(ast.Module(body=meths["from_ExprSlice"].body, type_ignores=[])).replace(" ", "")
-    ok = "out='(%s>>%d)'%(out,expr.start)" in t and "return'(%s&0x%x)'%(out,(1<<expr.stop-expr.start)-1)" in t
-    ck.ob("R1b", "slice", ok, m.where(meths["from_ExprSlice"]), "a slice must be emitted as ((x >> start) & (2^(stop-start) - 1))")
-    t = norm(ast.Module(body=meths["from_ExprCompose"].body, type_ignores=[])).replace(" ", "")
-    ok = "forindex,arginexpr.iter_args():" in t and "'((%s&0x%x)<<%d)'%(self.from_expr(arg),(1<<arg.size)-1,index)" in t and "'|'.join(out)" in t
-    ck.ob("R1b", "compose", ok, m.where(meths["from_ExprCompose"]), "a compose must be emitted as the OR of ((part & mask) << position)")
-    t = norm(ast.Module(body=meths["from_ExprCond"].body, type_ignores=[])).replace(" ", "")
-    ok = "'(%sif(%s)else%s)'%(self.from_expr(expr.src1),self.from_expr(expr.cond),self.from_expr(expr.src2))" in t
-    ck.ob("R1b", "cond", ok, m.where(meths["from_ExprCond"]), "a conditional must be emitted as (src1 if (cond) else src2)")
-    t = norm(ast.Module(body=meths["from_ExprMem"].body, type_ignores=[])).replace(" ", "")
-    ok = "'memory(%s,0x%x)'%(self.from_expr(expr.ptr),expr.size//8)" in t
-    ck.ob("R1b", "mem", ok, m.where(meths["from_ExprMem"]), "a memory read must be emitted as memory(ptr, size in bytes)")
+    _shapes(ck, m, meths)
 
     # ---------------------------------------------------------------- R2
     mm = ck.repo.mod(MI)
